@@ -74,6 +74,8 @@ DEFAULT_CFG = dict(
     userread=True,     # harness owns reads through YY_INPUT
     userwrap=False,    # %option yywrap with the harness's scripted yywrap()
     heap=False,        # harness owns yyalloc/yyrealloc/yyfree (allocation ledger, fault injection)
+    tablesfile=False,  # --tables-file: tables are loaded with yytables_fload() at run time
+    tablesverify=False,
     extra_opts="",     # further %option text
 )
 
@@ -99,6 +101,8 @@ def emit_l(src, cfg):
     hdr.append("%option " + " ".join(opts))
     if c.get("heap"):
         hdr.append("%option noyyalloc noyyrealloc noyyfree")
+    if c.get("tablesverify"):
+        hdr.append("%option tables-verify")
     if c["extra_opts"]:
         hdr.append("%option " + c["extra_opts"])
     names = sc_names(src)
@@ -164,7 +168,10 @@ def generate(flexdir, src, cfg, workdir, name, san=True, cc_extra=()):
     with open(lpath, "w") as f:
         f.write(emit_l(src, c))
     env = dict(os.environ, LC_ALL="C")
-    cmd = [os.path.join(flexdir, "flex")] + flex_args(c) + ["-o", cpath, lpath]
+    targs = []
+    tpath = os.path.join(workdir, name + ".tables")
+    if c.get("tablesfile"): targs = ["--tables-file=" + tpath]
+    cmd = [os.path.join(flexdir, "flex")] + flex_args(c) + targs + ["-o", cpath, lpath]
     cmd = ["timeout", "120"] + cmd
     p = subprocess.run(cmd, stdout=subprocess.PIPE, stderr=subprocess.PIPE, text=True, errors="replace",
                        env=env, timeout=120)
@@ -174,11 +181,12 @@ def generate(flexdir, src, cfg, workdir, name, san=True, cc_extra=()):
     defs = detect_defs(ctext)
     cc = ["g++" if c["flavour"] == "cxx" else "gcc", "-O0", "-w", "-g", "-D_GNU_SOURCE"]
     if san: cc += ["-fsanitize=address,undefined", "-fno-sanitize-recover=undefined"]
+    if c.get("tablesfile"): defs = ["VF_TABLESFILE", "VF_NODUMP"] + [d for d in defs if d == "VF_HAS_EOLTBL" and False]
     cc += ["-D" + d for d in defs] + ["-I", flexdir] + list(cc_extra) + ["-o", exe, cpath]
     q = subprocess.run(cc, stdout=subprocess.PIPE, stderr=subprocess.STDOUT, text=True, errors="replace", timeout=300)
     if q.returncode != 0:
         raise GenError("compile failed", p.stderr + "\n--- cc:\n" + q.stdout[-3000:], -1)
-    return dict(exe=exe, c=cpath, l=lpath, stderr=p.stderr, defs=defs, cmd=cmd)
+    return dict(exe=exe, c=cpath, l=lpath, stderr=p.stderr, defs=defs, cmd=cmd, tables=tpath if c.get("tablesfile") else None)
 
 
 def dump_tables(exe):
